@@ -329,7 +329,7 @@ def run_asyncio(chooser, schema, text, kwargs, in_thread, make_binding_async, ea
             leftovers = len(pool.parked) + len(gates.parked)
             try:
                 res = task.result()
-            except Exception as e:
+            except (Exception, asyncio.CancelledError) as e:
                 out = ("raised", e)
             else:
                 out = normalise(res)
